@@ -4,6 +4,7 @@ import itertools
 from .common import zlit, listlit, blit
 
 ID = 'C06'
+IMPL_TIMEOUT = 60          # seconds for one session; generated sessions take well under a second
 COQ_TARGETS = ['C06/Props.vo', 'C06/Corr.vo']
 PROPS = 'C06/Props.v'
 EXTRACTED = []
